@@ -22,3 +22,18 @@ Print Assumptions C20_source_string_add.
 Theorem C20_source_string_remove : forall u ps, NoDup u -> V2.StringList_Remove u ps = fold_left (spec_remove1 norm_id) ps u.
 Proof. exact src_string_remove. Qed.
 Print Assumptions C20_source_string_remove.
+
+(* the source-network list: Contains / Add / Remove are the tag list's (the receiver seen as a pointer to a TagList),
+   Set empties the list and adds the lower-cased text split on commas - the model's [cidr_set], whatever the list held *)
+Theorem C20_source_cidr_contains : forall u p, V2.CIDRList_Contains u p = mem (norm_tag p) u.
+Proof. exact src_cidr_contains. Qed.
+Print Assumptions C20_source_cidr_contains.
+Theorem C20_source_cidr_add : forall u ps, V2.CIDRList_Add u ps = fold_left (spec_add1 norm_tag) ps u.
+Proof. exact src_cidr_add. Qed.
+Print Assumptions C20_source_cidr_add.
+Theorem C20_source_cidr_remove : forall u ps, NoDup u -> V2.CIDRList_Remove u ps = fold_left (spec_remove1 norm_tag) ps u.
+Proof. exact src_cidr_remove. Qed.
+Print Assumptions C20_source_cidr_remove.
+Theorem C20_source_cidr_set : forall (c : list string) (values : string), V2.CIDRList_Set c values = view (cidr_set values).
+Proof. exact src_cidr_set. Qed.
+Print Assumptions C20_source_cidr_set.
